@@ -1,12 +1,13 @@
 #!/bin/bash
 # usage: tools/soak.sh <tier> <seed-start> <n-seeds> [props...]   - runs checks with several VERIF_SEED values, output redirected
 # to a scratch directory (never touches committed evidence); prints one line per (prop, seed).
+here="$(cd "$(dirname "$0")/.." && pwd)"
 tier="$1"; s0="$2"; n="$3"; shift 3
 props="${*:-C01 C02 C03 C04 C05 C06 C08 C09 C10 C11 C12 C13 C14 C15 C17 C19 C20}"
 out="$(mktemp -d /tmp/gvsoak.XXXXXX)"
 for ((s=s0; s<s0+n; s++)); do
   for p in $props; do
-    VERIF_OUT="$out" VERIF_SEED=$s timeout 3000 /venv/bin/python /verif/check.py $p --tier "$tier" > "$out/$p.$s.log" 2>&1
+    VERIF_OUT="$out" VERIF_SEED=$s timeout 3000 /venv/bin/python "$here/check.py" $p --tier "$tier" > "$out/$p.$s.log" 2>&1
     code=$?
     echo "SOAK $p seed=$s exit=$code $(tail -1 "$out/$p.$s.log" | cut -c1-200)"
     if [ $code -ne 0 ]; then grep -E "VIOLATION|HARNESS|sig=" "$out/$p.$s.log" | head -8; fi
